@@ -181,3 +181,17 @@ def run(ctx: Ctx):
     ctx.check(ok and not lookups and bool(sub), "R08.c", e2.key("undefined-symbol"), "symbols_[name] -> KeyError -> MissingSymbolError", "build_expression: an undefined symbol is not turned into MissingSymbolError (lookup with a default, or the handler no longer re-raises)", e2.where())
     sa = sm.func("ode.py", "sort_assignments")
     ctx.check(not any(isinstance(n, ast.Try) for n in ast.walk(sa.node)) and any(isinstance(c, ast.Call) and norm(c.func).endswith("static_order") for c in ast.walk(sa.node)), "R08.c", sa.key("cycle"), "graphlib.CycleError propagates from static_order()", "sort_assignments catches exceptions around the topological sort (cyclic definitions could be accepted)", sa.where())
+
+    ctx.rule("R08.d", "the symbol table used to resolve expressions is built fresh for each model from its own atoms (plus the time aliases); nothing defined by an earlier model can satisfy a reference", floor=3)
+    mo = sm.func("ode.py", "make_ode")
+    ga = [n for n in ast.walk(mo.node) if isinstance(n, ast.Assign) and isinstance(n.value, ast.Call) and norm(n.value.func) == "gather_atoms" and isinstance(n.targets[0], ast.Tuple)]
+    sym_var = [norm(e) for e in ga[0].targets[0].elts][2] if ga else None
+    calls = [c for c in ast.walk(mo.node) if isinstance(c, ast.Call) and norm(c.func) == "resolve_expressions"]
+    passed = norm(call_kw(calls[0], "symbols")) if calls and call_kw(calls[0], "symbols") is not None else None
+    ctx.check(sym_var is not None and passed == sym_var, "R08.d", mo.key("resolve-with-own-symbols"), "expressions are resolved with the dict returned by gather_atoms for this model", f"make_ode resolves expressions with `{passed}`, not with the symbol dict gathered from this model's atoms (`{sym_var}`): names can leak in from elsewhere", mo.where())
+    mod_names = {t.id for st in sm.module("ode.py").body if isinstance(st, (ast.Assign, ast.AnnAssign)) for t in ((st.targets if isinstance(st, ast.Assign) else [st.target])) if isinstance(t, ast.Name)}
+    rebinds = [n for n in ast.walk(mo.node) if isinstance(n, ast.Assign) and any(isinstance(t, ast.Name) and t.id == (passed or "symbols") for t in n.targets) and isinstance(n.value, ast.Name) and n.value.id in mod_names]
+    ctx.check(not rebinds, "R08.d", mo.key("no-shared-table"), "the table is not a module-level object", f"make_ode binds the symbol table to the module-level object `{norm(rebinds[0].value) if rebinds else None}`: symbols of previously loaded models stay defined", mo.where(rebinds[0]) if rebinds else mo.where())
+    gaf = sm.func("ode.py", "gather_atoms")
+    init = [n for n in gaf.node.body if isinstance(n, (ast.Assign, ast.AnnAssign)) and norm(n.targets[0] if isinstance(n, ast.Assign) else n.target) == "symbols"]
+    ctx.check(bool(init) and norm(init[0].value) in ("{}", "dict()"), "R08.d", gaf.key("fresh-dict"), "gather_atoms starts from an empty dict", f"gather_atoms initialises the symbol dict with {norm(init[0].value) if init else None}", gaf.where())
